@@ -282,6 +282,32 @@ fn run_render(input: &str, output: &str) -> ExitCode {
     ExitCode::SUCCESS
 }
 
+/// Renders the whole diagnostic set as the CLI does and reports how many diagnostics appear in the
+/// text (`RCOUNT <stage> <rendered> <produced>`; one location line ` --> f:L:C` per diagnostic).
+/// Sets above RENDER_SET_LIMIT are left to the real binary (many-diagnostics stream): the walk is
+/// quadratic in a debug build.
+const RENDER_SET_LIMIT: usize = 1500;
+fn render_whole_set(stage: &str, diags: &Diagnostics<'_>, src: &str, out: &mut String) {
+    let n = diags.diagnostics.len();
+    if n > RENDER_SET_LIMIT {
+        let _ = writeln!(out, "RENDER skipped {stage} {n}");
+        return;
+    }
+    let rendered = panic::catch_unwind(panic::AssertUnwindSafe(|| {
+        let text = diags.render_ansi(src, "f");
+        let text: &str = &text;
+        text.split('\n').filter(|l| strip_ansi(l).starts_with(" --> f:")).count()
+    }));
+    match rendered {
+        Ok(c) => {
+            let _ = writeln!(out, "RCOUNT {stage} {c} {n}");
+        }
+        Err(e) => {
+            let _ = writeln!(out, "PANIC render {}", panic_text(e));
+        }
+    }
+}
+
 fn one_case(src: &str, lex_dump: bool, out: &mut String) {
     let arena = Arena::new(256 * MEBI).expect("arena");
     // ---- stand-alone lexer run (token / diagnostic dump for the model correspondence)
@@ -363,10 +389,7 @@ fn one_case(src: &str, lex_dump: bool, out: &mut String) {
         let _ = writeln!(o, "PD {}", err.diagnostics.len());
         check_spans("parse", src, &err.diagnostics, &mut o);
         dump_geometry("parse", src, &err.diagnostics, &arena, &mut o);
-        let rendered = panic::catch_unwind(panic::AssertUnwindSafe(|| err.render_ansi(src, "f").len()));
-        if let Err(e) = rendered {
-            let _ = writeln!(o, "PANIC render {}", panic_text(e));
-        }
+        render_whole_set("parse", err, src, &mut o);
         if !err.diagnostics.is_empty() {
             o.push_str("GATE norun-parse\n");
             return o;
@@ -380,11 +403,7 @@ fn one_case(src: &str, lex_dump: bool, out: &mut String) {
         let _ = writeln!(o, "RS {}", resolver.errors.diagnostics.len());
         check_spans("resolve", src, &resolver.errors.diagnostics, &mut o);
         dump_geometry("resolve", src, &resolver.errors.diagnostics, &res_arena, &mut o);
-        let rendered =
-            panic::catch_unwind(panic::AssertUnwindSafe(|| resolver.errors.render_ansi(src, "f").len()));
-        if let Err(e) = rendered {
-            let _ = writeln!(o, "PANIC render {}", panic_text(e));
-        }
+        render_whole_set("resolve", &resolver.errors, src, &mut o);
         let any_error = resolver.errors.diagnostics.iter().any(|d| d.severity == Severity::Error);
         if resolver.errors.has_errors() != any_error {
             o.push_str("BAD resolve has_errors 0 0 0\n");
